@@ -51,18 +51,21 @@ def sv_ham(B, case):
     psi = [B.cplx(f"psi{k}") for k in range(2 ** N)]
     t_om, t_de, t_ph, t_U = _drive_tensors(B, case, om, de, ph, U)
     t_psi = B.tensor(psi, "complex128")
+    psi2 = [(k + 2) * psi[(k + 1) % len(psi)] for k in range(len(psi))]       # a different vector: shifted, rescaled
+    t_psi2 = B.tensor(psi2, "complex128")
     with B.under_test():
         from emu_sv.hamiltonian import RydbergHamiltonian
         H = RydbergHamiltonian(omegas=t_om, deltas=t_de, phis=t_ph, interaction_matrix=t_U, device="cpu")
         out = H * t_psi
-        out2 = H * t_psi                      # applying twice must not accumulate state
-        is_complex_path = bool(H.complex)
+        out2 = H * t_psi2                     # a second application (another vector) must neither accumulate state
+        is_complex_path = bool(H.complex)     # nor disturb the first result (checked AFTER the second application)
     Hd = dense_rydberg(B, N, om, de, cs, U)
     want = Hd.dot(mat(B, psi))
+    want2 = Hd.dot(mat(B, psi2))
     want_diag = mat(B, [Hd[k, k] for k in range(2 ** N)])
     expect_complex = any(case["phi"])
     checks = [("H*psi", B.arr(out), want),
-              ("H*psi (second application)", B.arr(out2), want),
+              ("H*psi2 (second application, other vector)", B.arr(out2), want2),
               ("H.diag", B.arr(H.diag), want_diag),
               ("psi not modified", B.arr(t_psi), mat(B, psi)),
               ("complex-path flag", mat(B, [int(is_complex_path)]), mat(B, [int(expect_complex)]))]
